@@ -12,7 +12,7 @@ Proof.
   destruct (trace_step c h (init c) t (inv_init c) Hin) as [HI E].
   destruct (step_ok c _ _ _ _ _ HI E) as [HI' _].
   assert (U : uniqb (tbl (t_post t)) = true) by (apply uniqb_spec; apply (inv_uniq c); exact HI').
-  rewrite U. simpl. rewrite andb_false_r. rewrite app_nil_r.
+  rewrite U, (record_covers_any_state c (init c) h t Hin). cbn [negb]. rewrite andb_false_r. rewrite !app_nil_r.
   destruct (op_msg (t_op t)) as [m|] eqn:Hm; auto.
   destruct (t_reply t) as [r|] eqn:Hr; auto.
   destruct (is_lease_reply r) eqn:L; auto.
